@@ -6,6 +6,7 @@ import (
 	"bytes"
 	"fmt"
 	"io"
+	"math"
 	"strings"
 	"testing/iotest"
 
@@ -222,7 +223,7 @@ func GenSeqLen(t *rapid.T, width int, allowLong bool) int {
 		return 1
 	case k <= 4 && width > 0:
 		w := width
-		if w > 300 && !allowLong {
+		if w > 300 && !allowLong || w > 20000 {
 			w = 60
 		}
 		return max0(w + rapid.IntRange(-1, 1).Draw(t, "len-w"))
@@ -299,7 +300,9 @@ func GenSeqFile(t *rapid.T, format string, maxRecs int, allowLong bool) SeqFile 
 	f.Route = GenRoute(t)
 	f.Enc = int8(alphabet.Sanger)
 	if format == "fasta" {
-		f.Width = rapid.OneOf(rapid.IntRange(1, 200), rapid.SampledFrom([]int{1, 2, 60, 80, 4095, 4096, 4097, 5000, 10000})).Draw(t, "width")
+		f.Width = rapid.OneOf(rapid.IntRange(1, 200), rapid.SampledFrom([]int{1, 2, 60, 80, 4095, 4096, 4097, 5000, 10000}),
+			// "never wrap": any positive width is a width, up to the largest int
+			rapid.SampledFrom([]int{math.MaxInt64, math.MaxInt64 - 1, math.MaxInt64 - 7, 1 << 62, math.MaxInt32, 1 << 31, 1<<32 + 1})).Draw(t, "width")
 	} else {
 		f.QID = rapid.Bool().Draw(t, "qid")
 		f.Enc = int8(rapid.SampledFrom(PhredEncodings).Draw(t, "enc"))
@@ -640,12 +643,13 @@ func (f SeqFile) Render(l Layout) []byte {
 			if w <= 0 {
 				w = f.Width
 			}
-			for i := 0; i < len(letters); i += w {
-				e := i + w
-				if e > len(letters) {
-					e = len(letters)
+			for i := 0; i < len(letters); {
+				e := len(letters)
+				if w < e-i {
+					e = i + w
 				}
 				add(letters[i:e], true)
+				i = e
 			}
 		} else {
 			qs := f.qualString(r)
